@@ -361,29 +361,33 @@ pub struct Session {
 
 impl Session {
     /// The delivery ids within `first..=last` for which the session holds a delivery tag,
-    /// in ascending order. The work done is bounded by the number of known deliveries,
-    /// not by the width of the (peer-chosen) range.
+    /// in serial-number order starting at `first` (delivery ids are RFC 1982 serial numbers, so
+    /// a range may wrap past `u32::MAX`). The work done is bounded by the number of known
+    /// deliveries, not by the width of the (peer-chosen) range.
     fn known_delivery_ids(
         &self,
         role: &Role,
         first: DeliveryNumber,
         last: DeliveryNumber,
     ) -> Vec<DeliveryNumber> {
-        if last < first {
+        let width = last.wrapping_sub(first);
+        if width >= 1 << 31 {
+            // `last` lies behind `first`
             return Vec::new();
         }
-        if ((last - first) as usize) < self.delivery_tag_by_id.len() {
-            (first..=last)
+        if (width as usize) < self.delivery_tag_by_id.len() {
+            (0..=width)
+                .map(|offset| first.wrapping_add(offset))
                 .filter(|id| self.delivery_tag_by_id.contains_key(&(role.clone(), *id)))
                 .collect()
         } else {
             let mut ids: Vec<DeliveryNumber> = self
                 .delivery_tag_by_id
                 .keys()
-                .filter(|(r, id)| r == role && (first..=last).contains(id))
+                .filter(|(r, id)| r == role && id.wrapping_sub(first) <= width)
                 .map(|(_, id)| *id)
                 .collect();
-            ids.sort_unstable();
+            ids.sort_unstable_by_key(|id| id.wrapping_sub(first));
             ids
         }
     }
